@@ -21,8 +21,9 @@ PmapsT  == <<(<<>>), <<P1>>, <<P2>>, <<R1>>, <<P1, R1>>, <<P2, R1>>>>
 TsRT    == <<TS("a", "x"), TS("a", "y"), TS("a", "*"), TS("b", "x"), TS("b", "y"), TS("b", "*"),
              TS("*", "x"), TS("*", "y"), TS("*", "*")>>
 TsMT    == <<TS("a", "x"), TS("a", "*"), TS("*", "x"), TS("*", "*"), TS("b", "y")>>
-QsQ     == {QABSENT, 0, 500}
-QsT     == {QABSENT, 0, 500, 1000}
+(* 400 = 0.0004: positive, but 0 when rounded to the grammar's three digits; 500400 = 0.5004 *)
+QsQ     == {QABSENT, 0, 400}
+QsT     == {QABSENT, 0, 400, 500400}
 
 (* malformedness is orthogonal to everything else: one representative per kind *)
 BadRanges == {MR(NOSLASH, NOSLASH, <<>>, QABSENT), MR("a", "x", <<>>, QBAD)}
@@ -40,7 +41,7 @@ AllMT   == MkTypes(TsMT, PmapsT)
 MTypesQ == Seq2Set(AllMQ)
 MTypesT == Seq2Set(AllMT)
 (* simulation vocabulary: everything *)
-RangesS == MkRanges(TsRQ, PmapsT, {QABSENT, 0, 500, 1000}) \cup {MR("b", "y", <<P1>>, QBAD)}
+RangesS == MkRanges(TsRQ, PmapsT, {QABSENT, 0, 100, 400, 500100, 500400, 999900, QONE}) \cup {MR("b", "y", <<P1>>, QBAD)}
 AllMS   == MkTypes(TsMT, PmapsT)
 MTypesS == Seq2Set(AllMS)
 
